@@ -18,6 +18,7 @@ from typing import Any, Final, TextIO, TypeAlias
 from typing_extensions import Never
 
 from mypy import defaults
+from mypy.errorcodes import error_codes
 from mypy.options import PER_MODULE_OPTIONS, Options
 
 _CONFIG_VALUE_TYPES: TypeAlias = (
@@ -692,6 +693,13 @@ def parse_mypy_comments(
             "", template, set_strict_flags, parser["dummy"], ini_config_types, stderr=stderr
         )
         errors.extend((lineno, x) for x in stderr.getvalue().strip().split("\n") if x)
+        for key in ("enable_error_code", "disable_error_code"):
+            codes = new_sections.get(key)
+            if isinstance(codes, list):
+                invalid_codes = sorted(c for c in codes if c not in error_codes)
+                if invalid_codes:
+                    errors.append((lineno, f"Invalid error code(s): {', '.join(invalid_codes)}"))
+                    new_sections[key] = [c for c in codes if c in error_codes]
         if reports:
             errors.append((lineno, "Reports not supported in inline configuration"))
         if strict_found:
